@@ -741,10 +741,12 @@ func definitelyNonNil(v ssa.Value, at *ssa.BasicBlock, depth int) bool {
 						}
 					}
 				}
-				return all && n > 0
+				if all && n > 0 {
+					return true
+				}
 			}
 		}
-		return false
+		// otherwise fall through to the dominance test on this value
 	case *ssa.UnOp:
 		if x.Op == token.MUL {
 			if g, ok := x.X.(*ssa.Global); ok {
